@@ -86,7 +86,10 @@ const char* __asan_default_options(void) {
 /* worker side                                                                                      */
 
 #define BIG_EXACT ((size_t)16 << 20)     /* up to here: exact heap object (ASan red zones) */
-#define BIG_MAP   ((size_t)256 << 20)    /* up to here: mapping that ends at a guard page */
+#define BIG_MAP   ((size_t)256 << 20)
+#define GUARD_BYTES ((size_t)65536)      /* guard area behind outputs filled by uninstrumented libraries */
+extern void __asan_poison_memory_region(void const volatile* addr, size_t size);
+extern void __asan_unpoison_memory_region(void const volatile* addr, size_t size);    /* up to here: mapping that ends at a guard page */
 
 static FILE* w_out;                      /* worker -> supervisor */
 static long cpu_ms = 5000;
@@ -340,18 +343,52 @@ static void run_case(const kase* k, result* r, size_t* a0, size_t* a1) {
         if (st == -2) RES("SKIP unknown-op");
         else if (st != CARQUET_OK) RES("ERR %d", st);
         else RES("OK %" PRId64, count > 0 ? count : 0);
-    } else if (!strcmp(op, "snappy") || !strcmp(op, "lz4") || !strcmp(op, "gzip") || !strcmp(op, "zstd")) {
+    } else if (!strcmp(op, "snappy") || !strcmp(op, "lz4")) {
         o = out_alloc(k->cap);
         size_t got = (size_t)-1; int st;
         BEGIN();
         if (op[0] == 's') st = carquet_snappy_decompress(in, n, o.p, k->cap, &got);
-        else if (op[0] == 'l') st = carquet_lz4_decompress(in, n, o.p, k->cap, &got);
-        else if (op[0] == 'g') st = carquet_gzip_decompress(in, n, o.p, k->cap, &got);
-        else st = carquet_zstd_decompress(in, n, o.p, k->cap, &got);
+        else st = carquet_lz4_decompress(in, n, o.p, k->cap, &got);
         END();
         if (st != CARQUET_OK) RES("ERR %d", st);
         else if (got > k->cap) RES("VIOL size-exceeds-capacity %zu > %zu", got, k->cap);
         else RES("OK %zu", got);
+    } else if (!strcmp(op, "gzip") || !strcmp(op, "zstd")) {
+        /* zlib / libzstd are system libraries WITHOUT sanitizer instrumentation: a store they make past the
+         * declared capacity is invisible to ASan even on an exact-size heap block.  The output therefore gets
+         * a GUARD area of known bytes right behind the declared capacity; it is poisoned for instrumented
+         * code (carquet itself, intercepted memcpy/memset) during the call and compared afterwards. */
+        size_t guard = k->cap <= BIG_EXACT ? GUARD_BYTES : 0;
+        uint8_t* blk = NULL; uint8_t* dstp;
+        if (guard) {
+            blk = malloc(k->cap + guard);
+            if (!blk) { RES("SKIP harness-out-of-memory"); goto done_codec; }
+            memset(blk, 0xA5, k->cap);
+            for (size_t i = 0; i < guard; i++) blk[k->cap + i] = (uint8_t)(0xC3 ^ (i * 7));
+            __asan_poison_memory_region(blk + k->cap, guard);
+            dstp = blk;
+        } else {
+            o = out_alloc(k->cap);
+            dstp = o.p;
+        }
+        size_t got = (size_t)-1; int st;
+        BEGIN();
+        if (op[0] == 'g') st = carquet_gzip_decompress(in, n, dstp, k->cap, &got);
+        else st = carquet_zstd_decompress(in, n, dstp, k->cap, &got);
+        END();
+        size_t first_bad = (size_t)-1, nbad = 0;
+        if (guard) {
+            __asan_unpoison_memory_region(blk + k->cap, guard);
+            for (size_t i = 0; i < guard; i++)
+                if (blk[k->cap + i] != (uint8_t)(0xC3 ^ (i * 7))) { if (first_bad == (size_t)-1) first_bad = i; nbad++; }
+        }
+        if (nbad) RES("VIOL guard-overwritten %zu byte(s) behind the declared capacity %zu (first at +%zu) status=%d reported=%zu",
+                      nbad, k->cap, first_bad, st, st == CARQUET_OK ? got : 0);
+        else if (st != CARQUET_OK) RES("ERR %d", st);
+        else if (got > k->cap) RES("VIOL size-exceeds-capacity %zu > %zu", got, k->cap);
+        else RES("OK %zu", got);
+        free(blk);
+done_codec: ;
     } else if (!strcmp(op, "snappy_len")) {
         size_t got = 0;
         BEGIN(); int st = carquet_snappy_get_uncompressed_length(in, n, &got); END();
